@@ -184,7 +184,7 @@ var depDirConflict = []string{"3rdparty/x", "2fa/api", "lib-go", "go-lib", "lib"
 func pkgNameForDir(dir string) string {
 	base := dir[strings.LastIndex(dir, "/")+1:]
 	switch {
-	case base == "v2":
+	case base == "v2" && strings.Contains(dir, "/"):
 		rest := dir[:strings.LastIndex(dir, "/")]
 		return pkgNameForDir(rest)
 	case base == "yaml.v3":
@@ -1136,15 +1136,36 @@ func (g *G) sig(depth int, inner bool) *Sig {
 		s.Variadic = true
 		g.label("sig:variadic")
 	}
+	ctxFirst := false
+	if !inner && np >= 1 && !s.Variadic || !inner && np >= 2 {
+		if cp := StdPkg("context"); cp != nil && g.Chance(8) {
+			// the idiomatic shape M(ctx context.Context, ...) error
+			s.Params[0].T = &Ty{K: KNamed, Name: "Context", Pkg: cp, Cmp: true}
+			if g.usedPkgs == nil {
+				g.usedPkgs = map[*Pkg]bool{}
+			}
+			g.usedPkgs[cp] = true
+			if named && s.Params[0].Name != "_" && !used["ctx"] {
+				delete(used, s.Params[0].Name)
+				s.Params[0].Name = "ctx"
+				used["ctx"] = true
+			}
+			ctxFirst = true
+			g.label("sig:context-first")
+		}
+	}
 	maxR := g.P.MaxResults
 	if inner {
 		maxR = 2
 	}
 	nr := g.Int(0, maxR)
+	if ctxFirst && g.Chance(60) {
+		nr = 1
+	}
 	rnamed := g.Chance(25)
 	for i := 0; i < nr; i++ {
 		r := Param{T: g.ty(tyCtx{depth: depth})}
-		if i == nr-1 && g.Chance(40) {
+		if i == nr-1 && (g.Chance(40) || ctxFirst) {
 			r.T = basic("error", true)
 		}
 		if rnamed {
@@ -1208,6 +1229,18 @@ func (g *G) genLocals() {
 			}
 		}
 	}()
+	if !g.P.ExecSafe && g.Chance(6) {
+		// an interface whose method set depends on the build configuration: declared twice, in two files with
+		// complementary build constraints. moq has to see what the go command sees by default.
+		exported := !g.inPlace || g.Chance(60)
+		tag := g.Pick([]string{"cgo", "linux", "amd64", "unix"})
+		ma, mb := g.freshMethod(), g.freshMethod()
+		d := &Decl{Name: g.freshTop(typeNamePool, exported), Cmp: true, Exported: exported, Iface: true, Methods: []string{ma, mb}}
+		d.Src = fmt.Sprintf("type %s interface {\n\t%s(s string) bool\n\t%s() error\n}", d.Name, ma, mb)
+		d.Twin = [2]string{tag, fmt.Sprintf("type %s interface {\n\t%s(s string) bool\n}", d.Name, ma)}
+		add(d)
+		g.label("local:build-constrained-twin")
+	}
 	n := g.Int(0, 5)
 	for i := 0; i < n; i++ {
 		exported := !g.inPlace || g.Chance(60)
@@ -1946,6 +1979,9 @@ func (g *G) renderSrcFile(f *srcFile) string {
 		return a + "."
 	}
 	for _, d := range f.locals {
+		if d.Twin[0] != "" {
+			continue // lives in two files of its own
+		}
 		b.WriteString(d.Src + "\n\n")
 	}
 	for _, it := range f.ifaces {
@@ -2029,6 +2065,31 @@ func (g *G) Case() *core.Case {
 		}
 		dir = g.Pick(srcDirPool)
 	}
+	var nested *Pkg
+	if !g.P.ExecSafe && g.Chance(8) {
+		// the source package is the PARENT directory of a dependency: <srcdir>/<x> is a package the interface mentions
+		var cs []*Pkg
+		for _, p := range g.deps {
+			if strings.Contains(p.Dir, "/") && !p.Std && lastElem(p.Dir) == p.Name {
+				par := p.Dir[:strings.LastIndex(p.Dir, "/")]
+				pn := pkgNameForDir(par)
+				ok := pn != "" && !IsKeyword(pn) && !Predeclared[pn] && (pn[0] >= 'a' && pn[0] <= 'z') && pn != p.Name
+				for _, o := range g.deps {
+					if o.Dir == par {
+						ok = false
+					}
+				}
+				if ok {
+					cs = append(cs, p)
+				}
+			}
+		}
+		if len(cs) > 0 {
+			nested = cs[g.Int(0, len(cs)-1)]
+			dir = nested.Dir[:strings.LastIndex(nested.Dir, "/")]
+			g.label("layout:dependency-below-source-dir")
+		}
+	}
 	name := pkgNameForDir(dir)
 	if dir == "api-v1" {
 		name = "api"
@@ -2062,6 +2123,12 @@ func (g *G) Case() *core.Case {
 	}
 	for _, f := range g.files {
 		c.Files[dir+"/"+f.Name] = g.renderSrcFile(f)
+	}
+	for _, d := range g.locals {
+		if d.Twin[0] != "" {
+			c.Files[dir+"/zz_"+strings.ToLower(d.Name)+"_on.go"] = "//go:build " + d.Twin[0] + "\n\npackage " + name + "\n\n" + d.Src + "\n"
+			c.Files[dir+"/zz_"+strings.ToLower(d.Name)+"_off.go"] = "//go:build !" + d.Twin[0] + "\n\npackage " + name + "\n\n" + d.Twin[1] + "\n"
+		}
 	}
 	if !g.P.NoDotBlank && g.Chance(g.P.DiffAliasPct) {
 		// one more file of the source package which imports packages the interfaces mention under aliases of ITS
@@ -2216,6 +2283,12 @@ func (g *G) Case() *core.Case {
 		cfg.Pkg = name
 	case "other":
 		cfg.Pkg = g.Pick([]string{"mocks", "other", "fakes", "testdoubles", "mymock"})
+		if nested != nil && g.Chance(60) {
+			// -pkg names a directory that exists below the working directory and holds a package of that name
+			cfg.Pkg = nested.Name
+			cfg.Invoke = "srcdot"
+			g.label("dest:named-like-subpackage")
+		}
 	case "test":
 		cfg.Pkg = name + "_test"
 	}
